@@ -76,3 +76,47 @@ def bit_prims_concrete(p, m):
     r = libintmath.python_trailing(n)
     want = (n & -n).bit_length() - 1
     return r == want, 'python_trailing(%d) = %r, expected %d' % (n, r, want)
+
+
+def sqrtrem_loops(p):
+    """sqrtrem_python's correction loops: whatever isqrt_fast_python returns within its documented error (true root or one
+    below -- 'almost always correct, 1 ulp too small with small probability'), the function returns (y, rem) with
+    y*y + rem == x and 0 <= rem <= 2*y.  The size cutoff (_1_600) is lowered by the harness so that the large-argument path
+    runs on small x where the squares are precise."""
+    from mpmath.libmp import libintmath
+    from pysym.engine import NORMAL
+    from pysym.values import fresh_int
+    bits = p['bits']
+    ob = Ob(wbump(p, 2 * bits + 40), timeout_s=p.get('_t', 60), mul_precise_bits=4096)
+    x = ob.int('x', 1 << (bits - 1), (1 << bits) - 1)
+    rmax = 1 << ((bits + 1) // 2)
+    r = ob.int('r', 0, rmax)
+    d = ob.int('d', -1, 0)
+    xt, rt = zt(x), zt(r)
+    ob.assume.append(z3.And(z3.ULE(rt * rt, xt), z3.UGT((rt + B(1)) * (rt + B(1)), xt)))
+
+    def m_fast(eng, st, args, kw, fr):
+        return [(st, NORMAL, V.binop(__import__('operator').add, r, d))]
+    ob.eng.models[libintmath.isqrt_fast_python] = m_fast
+    heap = {(id(libintmath.sqrtrem_python.__globals__), ('global', '_1_600')): (libintmath.sqrtrem_python.__globals__, 0)}
+    outs = ob.run(libintmath.sqrtrem_python, [x], heap=heap)
+
+    def good(val, st):
+        y, rem = val
+        yt, mt = zt(y), zt(rem)
+        return z3.And(yt == rt, mt == xt - rt * rt, mt >= B(0), mt <= yt + yt)
+    return finish(ob, ob.prove(outs, good))
+
+
+def sqrtrem_loops_concrete(p, m):
+    """replay on the real large-argument path: a perfect-square-adjacent 700-bit argument built from the model's low bits"""
+    from mpmath.libmp import libintmath
+    import math
+    seeds = [m.get('x', 3), m.get('r', 1)]
+    for k in range(40):
+        root = (1 << (450 + 37 * (k % 5))) + (seeds[0] * 2654435761 + k * 40503) % (1 << 300)
+        for x in (root * root, root * root + 1, root * root - 1, root * root + 2 * root):
+            y, rem = libintmath.sqrtrem_python(x)
+            if y != math.isqrt(x) or rem != x - y * y:
+                return False, 'sqrtrem_python(%d-bit x) returned a wrong root/remainder: y off by %d' % (x.bit_length(), y - math.isqrt(x))
+    return None, 'UNCONFIRMED: abstract violation of the correction loops not reproduced on 160 concrete 900..1200-bit arguments'
